@@ -138,6 +138,15 @@ pub struct RunScript {
     pub workers: Option<u32>,
     #[serde(default)]
     pub flush_ms: Option<u64>,
+    /// seed of the getrandom() seam (HashSet order of -t targets, select! seeds of the main thread)
+    #[serde(default)]
+    pub rand_seed: Option<u64>,
+    /// FSFAULT_CRASH coordinate for this run, if any
+    #[serde(default)]
+    pub fs_crash: Option<String>,
+    /// record filesystem effects of this run into this file
+    #[serde(default)]
+    pub fs_log: Option<String>,
 }
 impl RunScript {
     pub fn simple(opts: RunOpts) -> RunScript {
@@ -151,6 +160,9 @@ impl RunScript {
             kill: None,
             workers: None,
             flush_ms: None,
+            rand_seed: None,
+            fs_crash: None,
+            fs_log: None,
         }
     }
     pub fn behav_for(&self, command: &str, target: &str) -> Option<&Behav> {
@@ -246,6 +258,20 @@ pub fn drive_run(w: &mut World, actor: &str, sc: &RunScript, hang: Duration) -> 
     }
     if let Some(ms) = sc.flush_ms {
         env.push(("MONORAIL_VERIF_FLUSH_MS".into(), ms.to_string()));
+    }
+    if let Some(s) = sc.rand_seed {
+        env.push(("LD_PRELOAD".into(), crate::world::shim_path().to_string_lossy().into_owned()));
+        env.push(("FSFAULT_RANDSEED".into(), s.to_string()));
+    }
+    if sc.fs_crash.is_some() || sc.fs_log.is_some() {
+        env.push(("LD_PRELOAD".into(), crate::world::shim_path().to_string_lossy().into_owned()));
+        env.push(("FSFAULT_ROOT".into(), w.out_dir().to_string_lossy().into_owned()));
+        if let Some(c) = &sc.fs_crash {
+            env.push(("FSFAULT_CRASH".into(), c.clone()));
+        }
+        if let Some(l) = &sc.fs_log {
+            env.push(("FSFAULT_LOG".into(), l.clone()));
+        }
     }
     let proc_id = match w.start_m(actor, &args, "*", &env) {
         Ok(p) => p,
